@@ -46,7 +46,8 @@ def cases(tier):
                         continue
                     for lay in (("fyx", "tfyx", "ftyx") if Kx * Ky <= 2 else ("fyx",)):
                         out.append(dict(Kx=Kx, Ky=Ky, N=N, orient=[list(map(list, o)) for o in orient], periodic=periodic,
-                                        lay=lay, n_expressible=len(oris), n_orientations=total, ops=OPS_T[tier], tos=TOS_T[tier]))
+                                        lay=lay, n_expressible=len(oris), n_orientations=total, ops=OPS_T[tier], tos=TOS_T[tier],
+                                        listing=(oi + len(out)) % 3))
     if tier == "thorough":
         rng = random.Random(int(os.environ.get("VERIF_SEED", "0")))
         for (Kx, Ky) in [(3, 2), (2, 3)]:
@@ -90,6 +91,11 @@ def case(W, cfg):
     Kx, Ky, N = cfg["Kx"], cfg["Ky"], cfg["N"]
     dec = Decomp(Kx, Ky, N, orient, cfg["periodic"])
     table = dec.links()
+    if table is not None and cfg.get("listing"):
+        # the same links, faces listed in another order (descending / rotated): a table is a mapping, not a sequence
+        ks = list(table)
+        ks = ks[::-1] if cfg["listing"] == 1 else ks[1:] + ks[:1]
+        table = {k: table[k] for k in ks}
     if table is None:
         # expressibility does not depend on N by construction; guard anyway
         raise harness.HarnessError("orientation not expressible at this N")
